@@ -21,12 +21,12 @@ func corpus() []scenario {
 	c0 := hx(&cairo0Fxs[0])
 	s0, s1 := sierraFxs[0], sierraFxs[1]
 	boundaries := []Step{
-		st(v, "sa 104 sk 2 5 d 104 c000"),         // 0: deploy + first write in the same block
-		st(v, ""),                                  // 1
-		st(v, "sa 104 sk 2 6 n 104 1"),             // 2: overwrite, first nonce
-		st(v, "r 104 c001"),                        // 3: replace class
-		st(v, "sa 104 sk 2 0 n 104 2 d 105 c002"),  // 4: delete slot, second contract
-		st(v, "sa 104 sk 2 0 sk 3 0 sa 105 sk 2 0"), // 5: zero to a now-unset and to never-written slots (no-ops)
+		st(v, "sa 104 sk 2 5 d 104 c000"),            // 0: deploy + first write in the same block
+		st(v, ""),                                    // 1
+		st(v, "sa 104 sk 2 6 n 104 1"),               // 2: overwrite, first nonce
+		st(v, "r 104 c001"),                          // 3: replace class
+		st(v, "sa 104 sk 2 0 n 104 2 d 105 c002"),    // 4: delete slot, second contract
+		st(v, "sa 104 sk 2 0 sk 3 0 sa 105 sk 2 0"),  // 5: zero to a now-unset and to never-written slots (no-ops)
 		st(v, "sa 104 sk 2 7 sa 105 sk 4 1 n 105 1"), // 6
 		rv, rv, rv, // back to head 3
 		st(v, "sa 104 sk 2 6 n 104 3"), // 4': same-value rewrite
@@ -34,7 +34,7 @@ func corpus() []scenario {
 		st(v, "r 104 c000 sa 104 sk 2 0"),
 		rv,
 		st(v, "r 104 c000 sa 104 sk 2 0"), // re-apply
-		rv, rv, rv, rv, rv, rv, rv, // down to the empty chain
+		rv, rv, rv, rv, rv, rv, rv,        // down to the empty chain
 		st(v, "d 105 c003"),
 		st(v, "n 105 5 sa 105 sk 3 9"),
 	}
@@ -68,6 +68,8 @@ func corpus() []scenario {
 		st("0.14.1", "m "+hx(&s0.hash)+" "+hx(&s0.casm2)),
 		rv, rv, rv,
 		st("0.14.1", "c1 "+hx(&s0.hash)+" "+hx(&s0.casm2)+" "+hx(&s0.casm2)),
+		st("0.14.1", "c0 "+c0), // listed again: keeps the first declaration height …
+		rv,                     // … and survives the revert of this block
 	}
 	// a block that empties the storage of a system contract
 	drain := []Step{
